@@ -268,15 +268,11 @@ func c10Run(R *vr.Result, rng *rand.Rand, c c10Cfg, occ map[string]int) {
 		web = httptest.NewServer(h)
 		defer func() { go web.Close() }() // never wait: handlers of a wedged agent do not return
 		sock = filepath.Join(dir, "sasl.sock")
-		go runSaslAuthSocket(sock, iface) //nolint:errcheck
-		for i := 0; i < 200; i++ {
-			if _, err := os.Stat(sock); err == nil {
-				break
-			}
-			time.Sleep(5 * time.Millisecond)
-		}
+		stopSasl := ovlSasl(sock, iface)
+		defer stopSasl()
 	}
-	httpc := &http.Client{Timeout: 0}
+	httpc := &http.Client{Timeout: 0, Transport: &http.Transport{MaxIdleConnsPerHost: 64}}
+	defer httpc.CloseIdleConnections()
 	var issued, completed, inflight, maxInflight int64
 	var upNext int64
 	perClient := c.Requests / c.Clients
@@ -357,14 +353,14 @@ func c10Run(R *vr.Result, rng *rand.Rand, c c10Cfg, occ map[string]int) {
 		// afterwards one probe per channel must return
 		pd := make(chan struct{})
 		go func() {
-			iface.Check()                        //nolint:errcheck
-			iface.Add("probe", "pw", false)      //nolint:errcheck
-			iface.Update("probe", "pw2")         //nolint:errcheck
-			iface.SetAdmin("probe", true)        //nolint:errcheck
-			iface.Authenticate("probe", "pw2")   //nolint:errcheck
-			iface.List()                         //nolint:errcheck
-			iface.ListFull()                     //nolint:errcheck
-			iface.Remove("probe")                //nolint:errcheck
+			iface.Check()                      //nolint:errcheck
+			iface.Add("probe", "pw", false)    //nolint:errcheck
+			iface.Update("probe", "pw2")       //nolint:errcheck
+			iface.SetAdmin("probe", true)      //nolint:errcheck
+			iface.Authenticate("probe", "pw2") //nolint:errcheck
+			iface.List()                       //nolint:errcheck
+			iface.ListFull()                   //nolint:errcheck
+			iface.Remove("probe")              //nolint:errcheck
 			close(pd)
 		}()
 		var z int64
